@@ -10,6 +10,7 @@ import (
 	"strings"
 
 	r "github.com/DemoHn/Zn/pkg/runtime"
+	"github.com/DemoHn/Zn/pkg/value"
 
 	"verifharness/internal/pool"
 	"verifharness/internal/render"
@@ -76,7 +77,14 @@ func handleProg(raw json.RawMessage) interface{} {
 		}
 	}
 	defer func() { r.VerifHook = nil }()
-	o := zn.RunScript(src, nil)
+	var inputs map[string]r.Element
+	if len(c.Prog.Inputs) > 0 {
+		inputs = map[string]r.Element{}
+		for j, n := range c.Prog.Inputs {
+			inputs[render.Name(n)] = value.NewNumber(float64(j + 1))
+		}
+	}
+	o := zn.RunScript(src, inputs)
 	res := map[string]interface{}{"obs": o.Obs, "val": o.Val, "display": o.Display, "ev": evs, "lmap": lmap, "src": src,
 		"code": o.Code, "errkind": o.ErrKind, "msg": lastLine(o.Msg), "nev": nev}
 	if o.Obs == "error" {
